@@ -23,7 +23,8 @@ TRANSFORMS = ['rekey0', 'rekey-sparse', 'reorder', 'reverse', 'rename', 'signatu
               'rewrite-query', 'query-key', 'compose']
 INTERNAL_NAMES = ['eta_1', 'eta_2', 'mv_1', 'mf_1', 'mv_query', 'gamma-_1', 'eta_3', 'mf_2']
 REQUIRED = {'quick': {'t_' + t: 8 for t in TRANSFORMS}, 'thorough': {'t_' + t: 200 for t in TRANSFORMS}}
-HOSTILE_NAMES = ['A', 'B1', 'x1', 'a-b', 'a_b', 'Topp', 'bottom', 'Z9', 'q-1_x', 'signature1', 'v', 'f', 'nf']
+HOSTILE_NAMES = ['A', 'B1', 'x1', 'a-b', 'a_b', 'Topp', 'bottom', 'Z9', 'q-1_x', 'signature1', 'v', 'f', 'nf',
+                 'true', 'false', 'top', 'True', 'and', 'or', 'not', 'ite', 'distinct']
 # names that LOOK like helper symbols a solver-based implementation might create for itself (Boolean ones; the
 # integer ones of the c-inference encoding are exercised separately, see INTERNAL_NAMES)
 HELPER_LIKE = ['%s_%d' % (w, i) for w in ('tol', 'sel', 'aux', 'tmp', 'var', 'lit', 'act', 'asm', 'ind', 'sw', 'x', 'y',
@@ -146,7 +147,7 @@ def run_case(case):
 
     def t_sparse():
         nonlocal keys2
-        keys2 = sorted(rng.sample(range(0, 5 * n + 5), n))
+        keys2 = sorted(rng.sample(range(-n - 2, 5 * n + 5), n))
         if rng.random() < 0.5:
             rng.shuffle(keys2)
         tdesc['keys'] = keys2
@@ -198,7 +199,7 @@ def run_case(case):
 
     def t_qkey():
         nonlocal qkeys2
-        qkeys2 = rng.sample(range(0, 50), len(qs))
+        qkeys2 = rng.sample(range(-5, 50), len(qs))
         tdesc['query_keys'] = qkeys2
     T = {'rekey0': [t_rekey0], 'rekey-sparse': [t_sparse], 'reorder': [t_reorder], 'reverse': [t_reverse],
          'rename': [t_rename], 'signature': [t_signature], 'rewrite-base': [t_rewrite_base],
